@@ -29,6 +29,7 @@ func init() {
 			{Name: "parents-not-populated-for-directories", File: "artifact/image/layerscanning/image/image.go", Old: "		populateEmptyDirectoryNodes(virtualPath, layerDir, dirPath, chainLayersToFill)\n", New: "		if header.Typeflag != tar.TypeDir {\n			populateEmptyDirectoryNodes(virtualPath, layerDir, dirPath, chainLayersToFill)\n		}\n", Rule: "D8-parents-populated", Site: "fillChainLayersWithFilesFromTar"},
 			{Name: "implicit-dirs-inserted-unguarded", File: "artifact/image/layerscanning/image/image.go", Old: "		fillChainLayersWithFileNode(chainLayersToFill, node)\n", New: "		for _, chainLayer := range chainLayersToFill {\n			if chainLayer.fileNodeTree.Get(runningDir) == nil {\n				_ = chainLayer.fileNodeTree.Insert(runningDir, node)\n			}\n		}\n", Rule: "D7-who-may-insert", Site: "populateEmptyDirectoryNodes"},
 		},
+		Neutral: c04Neutral,
 	})
 }
 
